@@ -26,6 +26,12 @@ typedef struct c07_tp_s {
     int32_t c07_cond_##j(const parsec_taskpool_t *tp, const parsec_assignment_t *l) \
     { return ((l[0].value + l[1].value + ((const c07_tp_t *)tp)->salt[j]) & 1); }
 COND(0) COND(1) COND(2) COND(3) COND(4) COND(5) COND(6) COND(7)
+/* the exclusive alternatives of guard j: its negation, and (negation && k-bit) */
+#define NCOND(j) \
+    int32_t c07_ncond_##j(const parsec_taskpool_t *tp, const parsec_assignment_t *l) { return !c07_cond_##j(tp, l); } \
+    int32_t c07_xcond_##j(const parsec_taskpool_t *tp, const parsec_assignment_t *l) \
+    { return !c07_cond_##j(tp, l) && ((l[0].value ^ (((const c07_tp_t *)tp)->salt[j] >> 1)) & 1); }
+NCOND(0) NCOND(1) NCOND(2) NCOND(3) NCOND(4) NCOND(5) NCOND(6) NCOND(7)
 
 /* number of control messages gathered on a CTL flow: 1..3 */
 int32_t c07_gather_nb(const parsec_taskpool_t *tp, const parsec_assignment_t *l)
